@@ -293,10 +293,10 @@ class C13(Scenario):
             if i > 0 and rng.random() < 0.35:
                 s = list(specs[rng.randrange(i)])
                 if rng.random() < 0.5:
-                    s[2] = (s[2] + 1) % 3  # same path/recursive, other filter: a different watch
+                    s[2] = (s[2] + rng.choice([1, 3])) % 4  # same path/recursive, other filter (incl. the empty one): a different watch
                 specs.append(s)
             else:
-                specs.append([rng.choice(paths), rng.random() < 0.5, rng.choice([0, 0, 1, 2])])
+                specs.append([rng.choice(paths), rng.random() < 0.5, rng.choice([0, 0, 1, 2, 3])])
         nh = rng.choice([2, 3])
         ops = []
         model = {}
@@ -415,6 +415,8 @@ class C13(Scenario):
                     path = f"{e.watch.path}/marker{marker_n}"
                     marker_n += 1
                     e.queue_event(wev.FileCreatedEvent(path))
+                    if key[2] == ():
+                        continue  # an empty filter accepts nothing: the marker must reach nobody
                     for h in model.get(key, ()):
                         expect.add((h, path))
                 sim.wait_quiescent()
@@ -493,7 +495,7 @@ class C13(Scenario):
 
 # ---------------------------------------------------------------------------- C13 exhaustive small scope
 _ENUM13 = {}
-ENUM13_SPECS = [["/w/p0", True, 0], ["/w/p0", True, 1]]  # same path and flag, different filter: two distinct watches
+ENUM13_SPECS = [["/w/p0", True, 0], ["/w/p0", True, 3]]  # same path and flag, no filter vs the empty filter: two distinct watches
 
 
 def enum_c13(max_len=4):
